@@ -37,6 +37,19 @@ pub struct HoldsEmpty {
     id: i32,
 }
 
+/// hand-written serde newtype structs around Conjure-shaped values (user types in request bodies):
+/// the server rules must keep applying beneath them
+#[derive(Serialize, Deserialize, Debug, PartialEq, Clone)]
+pub struct Wrapped(Obj);
+#[derive(Serialize, Deserialize, Debug, PartialEq, Clone)]
+pub struct WrappedDouble(f64);
+#[derive(Serialize, Deserialize, Debug, PartialEq, Clone)]
+pub struct HoldsWrapped {
+    w: Wrapped,
+    ds: Vec<WrappedDouble>,
+    o: Option<Wrapped>,
+}
+
 /// newtype around an optional, standing for an alias of optional<T> (`From<Option<T>>`)
 #[derive(Debug, PartialEq, Clone)]
 pub struct OptAlias(Option<String>);
@@ -161,7 +174,7 @@ fn kind_ok<T>(v: &serde_json::Value) -> Option<bool> {
         "i32" => int32(v),
         "bool" => v.is_boolean(),
         "alloc::string::String" => v.is_string(),
-        "f64" => v.is_number() || matches!(v.as_str(), Some("NaN") | Some("Infinity") | Some("-Infinity")),
+        n if n == "f64" || n.ends_with("::WrappedDouble") => v.is_number() || matches!(v.as_str(), Some("NaN") | Some("Infinity") | Some("-Infinity")),
         "core::option::Option<i32>" => v.is_null() || int32(v),
         "alloc::vec::Vec<i32>" => v.as_array().map(|a| a.iter().all(int32)).unwrap_or(false),
         n if n.contains("BTreeMap<alloc::string::String, i32>") => v.as_object().map(|o| o.values().all(int32)).unwrap_or(false),
@@ -174,7 +187,7 @@ fn near_misses<T>() -> Vec<&'static str> {
         "i32" => vec!["1.5", "\"1\"", "2147483648", "-2147483649", "true", "null", "[1]"],
         "bool" => vec!["\"true\"", "1", "0", "null", "\"false\""],
         "alloc::string::String" => vec!["1", "null", "[\"a\"]", "true"],
-        "f64" => vec!["\"1.5\"", "\"42\"", "\"1e3\"", "\"nan\"", "\"inf\"", "\"infinity\"", "\"-inf\"", "true", "null", "[1.5]"],
+        n if n == "f64" || n.ends_with("::WrappedDouble") => vec!["\"1.5\"", "\"42\"", "\"1e3\"", "\"nan\"", "\"inf\"", "\"infinity\"", "\"-inf\"", "true", "null", "[1.5]"],
         "core::option::Option<i32>" => vec!["\"7\"", "7.5", "[7]", "false"],
         "alloc::vec::Vec<i32>" => vec!["[\"1\"]", "[1.5]", "[null]", "{}", "1", "[[1]]", "[2147483648]"],
         n if n.contains("BTreeMap<alloc::string::String, i32>") => vec!["{\"a\":\"1\"}", "{\"a\":1.5}", "[]", "{\"a\":null}"],
@@ -429,6 +442,9 @@ macro_rules! for_types {
         $f::<Obj>("object", &["{\"a\":1}", "{\"a\":1,\"b\":\"x\"}", "{\"b\":null,\"a\":-5}"], $($args),*);
         $f::<Empty>("empty-object", &["{}", "{ }"], $($args),*);
         $f::<HoldsEmpty>("object-holding-empty-objects", &["{\"marker\":{},\"markers\":[{},{}],\"id\":1}"], $($args),*);
+        $f::<Wrapped>("newtype(object)", &["{\"a\":1}", "{\"a\":1,\"b\":\"x\"}"], $($args),*);
+        $f::<WrappedDouble>("newtype(double)", &["1.5", "\"NaN\"", "\"-Infinity\""], $($args),*);
+        $f::<HoldsWrapped>("object-holding-newtypes", &["{\"w\":{\"a\":1},\"ds\":[1.5,\"NaN\"],\"o\":{\"a\":2}}", "{\"w\":{\"a\":1},\"ds\":[]}"], $($args),*);
         $f::<Any>("any", &["null", "[1,{\"a\":\"b\"}]", "\"s\"", "1"], $($args),*);
         $f::<Option<i32>>("optional<integer>", &["null", "7"], $($args),*);
         $f::<conjure_object::Uuid>("uuid", &["\"01234567-89ab-cdef-fedc-ba9876543210\""], $($args),*);
@@ -445,6 +461,18 @@ fn part_a<T>(ty: &'static str, valid: &[&str], r: &mut Report, rt: &ConjureRunti
 where
     T: DeserializeOwned + PartialEq + Debug + Send,
 {
+    // the catalogue's valid documents are valid by construction (written from the Conjure wire
+    // format, not computed by the subject): each must be accepted
+    for v in valid {
+        r.states += 1;
+        if reference_value::<T>("json", v.as_bytes()).is_none() {
+            r.violation(
+                format!("C06|direct|declared-valid-document-rejected|{}", ty),
+                format!("the server deserializer rejects {} for {}", v, ty),
+                json!({"kind": "declared-valid", "type": ty, "body": v}),
+            );
+        }
+    }
     // well-formed documents of a neighbouring JSON kind
     for body in near_misses::<T>() {
         r.states += 1;
@@ -651,6 +679,22 @@ pub fn run(args: &Args) -> Report {
 fn replay(path: &str, mut report: Report, rt: &ConjureRuntime) -> Report {
     let v = vcommon::load_replay(path);
     let c = &v["case"];
+    report.exhaustive = false;
+    if c["kind"] == "declared-valid" {
+        fn one_valid<T: DeserializeOwned + PartialEq + Debug + Send>(name: &'static str, _valid: &[&str], want: &str, body: &str, r: &mut Report) {
+            if name == want && reference_value::<T>("json", body.as_bytes()).is_none() {
+                r.violation(
+                    format!("C06|direct|declared-valid-document-rejected|{}", name),
+                    format!("the server deserializer rejects {} for {}", body, name),
+                    json!({"kind": "declared-valid", "type": name, "body": body}),
+                );
+            }
+        }
+        let ty = c["type"].as_str().unwrap().to_string();
+        let body = c["body"].as_str().unwrap().to_string();
+        for_types!(one_valid, &ty, &body, &mut report);
+        return report;
+    }
     let script: Script = c["script"]
         .as_array()
         .unwrap()
